@@ -1,8 +1,13 @@
 (* Props/C08.v — property C08: bbox() contains the curve and every side of it
    is touched by the curve.  Only statements, `exact`, Print Assumptions and
    non-vacuity examples live here.  Models: Model/Extrema.v (as coded; np.roots
-   is an oracle whose output is an argument). *)
+   is an oracle whose output is an argument).  Variant flags: [stable] (closed
+   form of bezier_real_minmax: false = pinned (tau -+ sqrt delta)/denom, true =
+   repaired cancellation-free form) and [fixed] (polyroots de-duplication:
+   false = pinned pair-index loop, true = repaired loop = C19's dedup_fixed).
+   Every theorem below holds for both values of both flags. *)
 From Coq Require Import ZArith List Bool Reals Lra.
+From SVP Require Model.BezierN.
 From SVP Require Import Base.Num Base.Cplx Base.Poly Model.Bezier Model.Extrema
      Proofs.ExtremaLemmas Proofs.ExtremaBbox Proofs.ExtremaArc.
 Import ListNotations.
@@ -23,6 +28,18 @@ Theorem C08_cubic_roots : forall a0 a1 a2 a3,
   forall t, dX a0 a1 a2 a3 t = 0 <->
             (t = brm_r1 NumR NumTR a0 a1 a2 a3 \/ t = brm_r2 NumR NumTR a0 a1 a2 a3).
 Proof. exact cubic_roots_iff. Qed.
+(* the repaired closed form computes the same two roots (possibly swapped), so
+   the statement holds for either variant *)
+Theorem C08_cubic_stable_same_roots : forall a0 a1 a2 a3,
+  brm_denom NumR a0 a1 a2 a3 <> 0 -> 0 <= brm_delta NumR a0 a1 a2 a3 ->
+  brm_roots NumR NumTR true a0 a1 a2 a3 = (brm_r1 NumR NumTR a0 a1 a2 a3, brm_r2 NumR NumTR a0 a1 a2 a3) \/
+  brm_roots NumR NumTR true a0 a1 a2 a3 = (brm_r2 NumR NumTR a0 a1 a2 a3, brm_r1 NumR NumTR a0 a1 a2 a3).
+Proof. exact stable_roots_perm. Qed.
+Theorem C08_cubic_roots_any_variant : forall a0 a1 a2 a3 stable,
+  brm_denom NumR a0 a1 a2 a3 <> 0 -> 0 <= brm_delta NumR a0 a1 a2 a3 ->
+  forall t, dX a0 a1 a2 a3 t = 0 <->
+            (t = fst (brm_roots NumR NumTR stable a0 a1 a2 a3) \/ t = snd (brm_roots NumR NumTR stable a0 a1 a2 a3)).
+Proof. exact cubic_roots_gen. Qed.
 Theorem C08_cubic_no_root : forall a0 a1 a2 a3,
   brm_delta NumR a0 a1 a2 a3 < 0 -> forall t, dX a0 a1 a2 a3 t <> 0.
 Proof. exact cubic_no_root. Qed.
@@ -51,30 +68,30 @@ Proof. exact line_tight. Qed.
 (* ---- CubicBezier.  coord_ok = "denom <> 0 (closed form, no oracle), or the
    np.roots output lists every real root in [0,1] of the derivative polynomial
    and no two surviving roots are isclose" ---- *)
-Theorem C08_bezier_contains_cubic_partial : forall atol rtol, 0 < atol ->
+Theorem C08_bezier_contains_cubic_partial : forall stable fixed atol rtol, 0 < atol -> 0 <= rtol ->
   forall p0 p1 p2 p3 rx ry,
-  coord_ok (re p0) (re p1) (re p2) (re p3) atol rtol rx ->
-  coord_ok (im p0) (im p1) (im p2) (im p3) atol rtol ry ->
+  coord_ok (re p0) (re p1) (re p2) (re p3) fixed atol rtol rx ->
+  coord_ok (im p0) (im p1) (im p2) (im p3) fixed atol rtol ry ->
   forall t, 0 <= t <= 1 ->
-  let '(xmin, xmax, ymin, ymax) := cubic_bbox NumR NumTR atol rtol p0 p1 p2 p3 rx ry in
+  let '(xmin, xmax, ymin, ymax) := cubic_bbox NumR NumTR stable fixed atol rtol p0 p1 p2 p3 rx ry in
   xmin <= re (cubic_point NumR p0 p1 p2 p3 t) <= xmax /\
   ymin <= im (cubic_point NumR p0 p1 p2 p3 t) <= ymax.
 Proof. exact cubic_bbox_contains. Qed.
 (* the closed form needs no premise on the oracle at all *)
-Theorem C08_bezier_contains_cubic_closed_form : forall atol rtol, 0 < atol ->
+Theorem C08_bezier_contains_cubic_closed_form : forall stable fixed atol rtol, 0 < atol -> 0 <= rtol ->
   forall p0 p1 p2 p3 rx ry,
   brm_denom NumR (re p0) (re p1) (re p2) (re p3) <> 0 ->
   brm_denom NumR (im p0) (im p1) (im p2) (im p3) <> 0 ->
   forall t, 0 <= t <= 1 ->
-  let '(xmin, xmax, ymin, ymax) := cubic_bbox NumR NumTR atol rtol p0 p1 p2 p3 rx ry in
+  let '(xmin, xmax, ymin, ymax) := cubic_bbox NumR NumTR stable fixed atol rtol p0 p1 p2 p3 rx ry in
   xmin <= re (cubic_point NumR p0 p1 p2 p3 t) <= xmax /\
   ymin <= im (cubic_point NumR p0 p1 p2 p3 t) <= ymax.
 Proof.
-  intros atol rtol Ha p0 p1 p2 p3 rx ry Hx Hy.
-  apply (cubic_bbox_contains atol rtol Ha); left; assumption.
+  intros stable fixed atol rtol Ha Hr p0 p1 p2 p3 rx ry Hx Hy.
+  apply (cubic_bbox_contains stable fixed atol rtol Ha Hr); left; assumption.
 Qed.
-Theorem C08_bezier_tight_cubic : forall atol rtol p0 p1 p2 p3 rx ry,
-  let '(xmin, xmax, ymin, ymax) := cubic_bbox NumR NumTR atol rtol p0 p1 p2 p3 rx ry in
+Theorem C08_bezier_tight_cubic : forall stable fixed atol rtol p0 p1 p2 p3 rx ry,
+  let '(xmin, xmax, ymin, ymax) := cubic_bbox NumR NumTR stable fixed atol rtol p0 p1 p2 p3 rx ry in
   (exists t, 0 <= t <= 1 /\ xmin = re (cubic_point NumR p0 p1 p2 p3 t)) /\
   (exists t, 0 <= t <= 1 /\ xmax = re (cubic_point NumR p0 p1 p2 p3 t)) /\
   (exists t, 0 <= t <= 1 /\ ymin = im (cubic_point NumR p0 p1 p2 p3 t)) /\
@@ -82,33 +99,52 @@ Theorem C08_bezier_tight_cubic : forall atol rtol p0 p1 p2 p3 rx ry,
 Proof. exact cubic_bbox_tight. Qed.
 
 (* ---- QuadraticBezier (always through polyroots of the linear derivative) ---- *)
-Theorem C08_bezier_contains_quad_partial : forall atol rtol, 0 < atol ->
+Theorem C08_bezier_contains_quad_partial : forall fixed atol rtol, 0 < atol -> 0 <= rtol ->
   forall p0 p1 p2 rx ry,
-  poly_ok atol rtol (quad_coeffs NumR (re p0) (re p1) (re p2)) rx ->
-  poly_ok atol rtol (quad_coeffs NumR (im p0) (im p1) (im p2)) ry ->
+  poly_ok fixed atol rtol (quad_coeffs NumR (re p0) (re p1) (re p2)) rx ->
+  poly_ok fixed atol rtol (quad_coeffs NumR (im p0) (im p1) (im p2)) ry ->
   forall t, 0 <= t <= 1 ->
-  let '(xmin, xmax, ymin, ymax) := quad_bbox NumR atol rtol p0 p1 p2 rx ry in
+  let '(xmin, xmax, ymin, ymax) := quad_bbox NumR fixed atol rtol p0 p1 p2 rx ry in
   xmin <= re (quad_point NumR p0 p1 p2 t) <= xmax /\
   ymin <= im (quad_point NumR p0 p1 p2 t) <= ymax.
 Proof. exact quad_bbox_contains. Qed.
-Theorem C08_bezier_tight_quad : forall atol rtol p0 p1 p2 rx ry,
-  let '(xmin, xmax, ymin, ymax) := quad_bbox NumR atol rtol p0 p1 p2 rx ry in
+Theorem C08_bezier_tight_quad : forall fixed atol rtol p0 p1 p2 rx ry,
+  let '(xmin, xmax, ymin, ymax) := quad_bbox NumR fixed atol rtol p0 p1 p2 rx ry in
   (exists t, 0 <= t <= 1 /\ xmin = re (quad_point NumR p0 p1 p2 t)) /\
   (exists t, 0 <= t <= 1 /\ xmax = re (quad_point NumR p0 p1 p2 t)) /\
   (exists t, 0 <= t <= 1 /\ ymin = im (quad_point NumR p0 p1 p2 t)) /\
   (exists t, 0 <= t <= 1 /\ ymax = im (quad_point NumR p0 p1 p2 t)).
 Proof. exact quad_bbox_tight. Qed.
 (* the polyroots model: whatever it returns satisfies the condition and comes
-   from the oracle; under the contract nothing is lost *)
-Theorem C08_polyroots_sound : forall atol rtol cond roots t,
-  In t (polyroots_real NumR atol rtol cond roots) ->
+   from the oracle (either variant); under the contract nothing is lost *)
+Theorem C08_polyroots_sound : forall atol rtol fixed cond roots t,
+  In t (polyroots_real NumR atol rtol fixed cond roots) ->
   cond t = true /\ exists r, In r roots /\ re r = t.
 Proof. exact polyroots_sound. Qed.
-Theorem C08_polyroots_complete_partial : forall atol rtol cond roots t, 0 < atol ->
+(* sep_ok false = no_close_pairs : no two surviving list POSITIONS are isclose
+   (needed by the pinned loop only because of the pair-index bug: it forbids
+   listing a double root twice);
+   sep_ok true = distinct_separated : surviving roots with DIFFERENT values are
+   not isclose (the genuine separation premise; multiplicities are harmless) *)
+Theorem C08_polyroots_complete_partial : forall atol rtol fixed cond roots t, 0 < atol -> 0 <= rtol ->
   In (t, 0) roots -> cond t = true ->
-  no_close_pairs atol rtol (filter cond (real_roots NumR atol rtol roots)) ->
-  In t (polyroots_real NumR atol rtol cond roots).
+  sep_ok atol rtol fixed (filter cond (real_roots NumR atol rtol roots)) ->
+  In t (polyroots_real NumR atol rtol fixed cond roots).
 Proof. exact polyroots_complete. Qed.
+Theorem C08_polyroots_complete_repaired_partial : forall atol rtol cond roots t, 0 < atol -> 0 <= rtol ->
+  In (t, 0) roots -> cond t = true ->
+  (forall a b, In (a, b) (pairs (filter cond (real_roots NumR atol rtol roots))) -> a <> b ->
+               isclose NumR atol rtol a b = false) ->
+  In t (polyroots_real NumR atol rtol true cond roots).
+Proof. intros atol rtol cond roots t. exact (polyroots_complete atol rtol true cond roots t). Qed.
+(* the premise of the pinned variant implies the one of the repaired variant *)
+Theorem C08_repaired_premise_weaker : forall atol rtol fixed l,
+  no_close_pairs atol rtol l -> sep_ok atol rtol fixed l.
+Proof. exact no_close_pairs_sep_ok. Qed.
+(* this file's polyroots model is property C19's (Model/BezierN.v), both variants, any carrier *)
+Theorem C08_polyroots_model_is_C19 : forall (K : Type) (N : Num K) atol rtol fixed cond roots,
+  polyroots_real N atol rtol fixed cond roots = BezierN.polyroots N rtol atol fixed roots true cond.
+Proof. intros K N. exact (polyroots_real_same_as_C19 N). Qed.
 
 (* ---- Arc ---- *)
 (* x'(a) = -P sin a - Q cos a vanishes exactly at ang + k*pi, for the three
@@ -174,12 +210,12 @@ Example C08_closed_form_nonvacuous :
   brm_denom NumR 0 3 (-3) 0 <> 0 /\ 0 <= brm_delta NumR 0 3 (-3) 0.
 Proof. unfold brm_denom, brm_delta. cbn. split; lra. Qed.
 (* the oracle contract is satisfiable: x(t) = 2t - 2t^2, derivative root 1/2 *)
-Example C08_contract_satisfiable : forall atol rtol,
-  poly_ok atol rtol (quad_coeffs NumR 0 1 0) [(1 / 2, 0)].
+Example C08_contract_satisfiable : forall fixed atol rtol,
+  poly_ok fixed atol rtol (quad_coeffs NumR 0 1 0) [(1 / 2, 0)].
 Proof.
-  intros atol rtol. split.
+  intros fixed atol rtol. split.
   - intros _ t _ H. left. f_equal. unfold quad_coeffs, peval in H. cbn in H. lra.
-  - unfold separated, no_close_pairs, real_roots. cbn [filter map].
+  - unfold separated. apply no_close_pairs_sep_ok. unfold no_close_pairs, real_roots. cbn [filter map].
     destruct (isclose NumR atol rtol (im (1 / 2, 0)) (zero NumR)); cbn [filter map].
     + destruct (lt01 NumR (re (1 / 2, 0))); cbn; intros a b [].
     + cbn; intros a b [].
@@ -203,6 +239,8 @@ Qed.
 
 Print Assumptions C08_extreme_at_candidates.
 Print Assumptions C08_cubic_roots.
+Print Assumptions C08_cubic_stable_same_roots.
+Print Assumptions C08_cubic_roots_any_variant.
 Print Assumptions C08_cubic_no_root.
 Print Assumptions C08_cubic_dX_is_derivative.
 Print Assumptions C08_cubic_delta_identity.
@@ -215,6 +253,9 @@ Print Assumptions C08_bezier_contains_quad_partial.
 Print Assumptions C08_bezier_tight_quad.
 Print Assumptions C08_polyroots_sound.
 Print Assumptions C08_polyroots_complete_partial.
+Print Assumptions C08_polyroots_complete_repaired_partial.
+Print Assumptions C08_repaired_premise_weaker.
+Print Assumptions C08_polyroots_model_is_C19.
 Print Assumptions C08_arc_critical.
 Print Assumptions C08_arc_atans_are_the_branches.
 Print Assumptions C08_arc_k_range.
